@@ -6,6 +6,26 @@ VERIF = os.path.dirname(os.path.dirname(os.path.abspath(__file__)))
 
 # id -> (level category, technique, level text, level note, design ref)
 CHECKS = {
+    "C09": ("exploration",
+            "parameter-grid enumeration + proptest random parameter sets with shrinking; differential vs libsodium's public and internal Argon2 and (thorough) a pure-Python RFC 9106 implementation",
+            "Every output length 16..=160, every memory size 8..=64 KiB x t 1..=3 x both algorithms, password and salt length sweeps, larger memories, an out-of-range table that must Err without allocating, and thousands of random parameter tuples (outlen up to 1100, salts 8..=64, t up to 6) are compared byte-for-byte with libsodium; PwHash verify accepts only the generating password.",
+            "libsodium's Argon2 core is the reference (public API cross-checked against the internal raw entry for 16-byte salts); memory sizes bounded to keep cases cheap (<= 64 MiB in thorough).",
+            "DESIGN.md §3 C09"),
+    "C10": ("exploration",
+            "proptest over (producer, password, costs, salt/hash lengths, rehash queries) with shrinking; oracles: strict parser + reference recomputation, bidirectional verify vs libsodium, re-encode identity, needs-rehash truth table vs libsodium",
+            "Strings from five producers (two dryoc, three libsodium incl. the internal encoder for salt 8..=64 / hash 16..=128, both algorithms) are decoded by an independent strict parser, recomputed with the reference, verified in both libraries for right and wrong passwords, re-encoded through PwHash::from_string(..).to_string(), and queried with needs_rehash at and around the encoded costs.",
+            "libsodium's encoder/verifier is the interop reference; costs kept small.",
+            "DESIGN.md §3 C10"),
+    "C11": ("exploration",
+            "call-history sampling of every randomised entry point under a seeded interleaving; oracle = derived distinctness / all-zero / per-byte variability screens (false alarm < 2^-100) + key-pair consistency",
+            "Hundreds (thorough: thousands) of calls per entry point, interleaved across entry points; repeated, all-zero, constant-byte, low-variability or inconsistent (pk != base(sk)) outputs are violations. Catches constant, zero, unfilled, partially filled or reused randomness; cannot establish unpredictability.",
+            "OS randomness is the subject, so runs are not bit-reproducible; thresholds derived per output length.",
+            "DESIGN.md §3 C11"),
+    "C13": ("exploration",
+            "enumeration of every box-seed length 0..=128, clamped-bit combinations, seeded kx/sign seeds, derive-keypair grid, honest Ed25519 pairs; differential vs libsodium constructions + model consistency",
+            "Deterministic key generation through classic and object constructors with several containers is compared with libsodium's own functions (and with the construction SHA-512/BLAKE2b + base-point multiplication where libsodium only accepts 32-byte seeds); Ed25519->X25519 conversions equal libsodium's and form a consistent pair usable in a box that libsodium opens.",
+            "libsodium constructions are the reference; sampled seeds.",
+            "DESIGN.md §3 C13"),
     "C06": ("exploration",
             "enumeration of message lengths x forms (byte-differential vs libsodium and an RFC 8032 big-integer model) + constructed negative families (all bit flips, S+kL, small-order / non-canonical tables, model-built mixed-order keys); accept/reject differential vs libsodium",
             "Signatures for every message length in both modes and every API form must equal libsodium's bytes; the accept/reject decision of every dryoc verification form must equal libsodium's on every single-bit mutation, every S+kL that fits 256 bits, all small-order and non-canonical encodings as R and as public key, mode cross-overs, and mixed-order keys where the correct answer is sometimes accept.",
